@@ -438,3 +438,61 @@ def rw_case_spec(rng):
 def rw_case(rng):
     start, stop, step, cont, mi, e1, spec, esub = rw_case_spec(rng)
     return start, stop, step, cont, mi, e1, rw_oracle(*spec), esub
+
+
+# ----------------------------------------------------------------------------- GHE.size plumbing
+def real_size(case):
+    """The REAL GHE.size on a bare GHE object whose simulate() is a synthetic function of (height, method):
+    hybrid excess root at r_hyb, hourly excess root at r_hr.  Returns (H, height of the last simulate, method
+    of the last simulate, number of simulate calls)."""
+    from ghedesigner.enums import TimestepType
+    from ghedesigner.ground_heat_exchangers import GHE
+
+    method_name, lo, hi, r_hyb, r_hr, slope = case
+    g = GHE.__new__(GHE)
+    g.bhe = types.SimpleNamespace(b=types.SimpleNamespace(H=96.0))
+    g.sim_params = types.SimpleNamespace(min_height=lo, max_height=hi, max_EFT_allowable=35.0, min_EFT_allowable=5.0)
+    calls = []
+
+    def simulate(method):
+        h = g.bhe.b.H
+        root = r_hyb if method == TimestepType.HYBRID else r_hr
+        excess = slope * (root - h)          # decreasing in the height, zero at the root
+        calls.append((float(h), method.name))
+        g.hp_eft = [35.0 + excess, 20.0]
+        return 35.0 + excess, 20.0
+
+    g.simulate = simulate
+    try:
+        GHE.size(g, method=TimestepType[method_name])
+        return float(g.bhe.b.H), calls[-1][0] if calls else None, calls[-1][1] if calls else None, len(calls), [c[1] for c in calls]
+    except Exception as e:  # noqa: BLE001
+        return exc_name(e), None, None, len(calls), []
+
+
+def size_cases(rng, n):
+    out = []
+    for _ in range(n):
+        lo = rng.choice([30.0, 60.0, 100.0])
+        hi = lo + rng.choice([0.5, 30.0, 75.0, 100.0])
+        span = hi - lo
+        out.append((rng.choice(["HYBRID", "HOURLY"]), lo, hi, lo + rng.uniform(-0.5, 1.5) * span, lo + rng.uniform(-0.5, 1.5) * span, rng.uniform(0.01, 2.0)))
+    return out
+
+
+def check_size_predicate(ctx, case, res):
+    method_name, lo, hi, r_hyb, r_hr, slope = case
+    H, last_h, last_m, n, methods = res
+    rep = {"method": method_name, "min_height": lo, "max_height": hi, "hybrid_root": r_hyb, "hourly_root": r_hr, "slope": slope, "result": res}
+    if isinstance(H, str):
+        ctx.finding("size-raises", f"GHE.size({method_name}) raised {H}", rep)
+        return
+    root = r_hyb if method_name == "HYBRID" else r_hr
+    want = min(max(root, lo), hi)
+    tol = 2 * (1e-6 + 1e-6 * hi) + 1e-9
+    if abs(H - want) > tol:
+        ctx.finding("size-height-not-the-root", f"GHE.size({method_name}) on [{lo},{hi}] returned {H}, the {method_name.lower()} excess is zero at {root} (expected {want})", rep)
+    if any(m != method_name for m in methods):
+        ctx.finding("size-wrong-method", f"GHE.size({method_name}) simulated with {sorted(set(methods))}", rep)
+    if last_h is None or abs(last_h - H) > 1e-12 or last_m != method_name:
+        ctx.finding("size-temps-not-at-returned-height", f"after GHE.size({method_name}) the stored temperatures are those of H={last_h} ({last_m}), the object has H={H}", rep)
